@@ -29,7 +29,8 @@ namespace nmtools::index
             // TODO: use index_type instead of size_t
             // integer start / stop are subtracted as signed values: with unsigned arguments the difference of a
             // decreasing range would wrap
-            using diff_t = meta::conditional_t<meta::is_integer_v<start_t> && meta::is_integer_v<stop_t>
+            // (is_index_v: run-time integers and integral constants alike, e.g. arange(size_t(6), 1_ct, -2))
+            using diff_t = meta::conditional_t<meta::is_index_v<start_t> && meta::is_index_v<stop_t>
                 , long long, decltype(stop - start)>;
             size_t d = ceil_(float(static_cast<diff_t>(stop) - static_cast<diff_t>(start)) / step);
             at(ret,0) = d;
